@@ -4,8 +4,8 @@
 (declare-fun fold!2 () Bool)
 (declare-fun fields!1 () Int)
 (assert
- (let ((?x9 (localoffset fields!1 fold!2)))
-(let ((?x10 (- fields!1 ?x9)))
-(let (($x12 (= ?x10 ?x10)))
-(not $x12)))))
+ (let ((?x11 (localoffset fields!1 fold!2)))
+(let ((?x12 (- fields!1 ?x11)))
+(let (($x14 (= ?x12 ?x12)))
+(not $x14)))))
 (check-sat)
